@@ -1,7 +1,8 @@
 /*
- * C09/falloc: preallocation of an EXTENT-mapped file, the REAL static ext_falloc_helper() and
- * claim_range() (MODE 1) and the REAL ext2fs_fallocate() -> extent_fallocate() walk with the
- * helper real (MODE 2) of lib/ext2fs/fallocate.c, cluster ratio 1 (CRB 0) and 4 (CRB 2).
+ * C09/falloc: preallocation of an EXTENT-mapped file: one call of the REAL static
+ * ext_falloc_helper() and claim_range() of lib/ext2fs/fallocate.c, cluster ratio 1 (CRB 0) and
+ * 4 (CRB 2), left_ext / right_ext given or NULL (compile time), under the contract its only
+ * caller extent_fallocate() establishes (ASSUMED here; the walk itself is OUTSIDE).
  *
  * The extent tree is a tiny list model behind the extent API (goto / get / replace / insert /
  * delete / fix_parents: flat, sorted by logical block, the semantics of a depth-0 tree); the
